@@ -23,7 +23,7 @@ type vclock struct {
 func newVClock(startNs int64) *vclock { return &vclock{now: time.Unix(0, startNs).UTC()} }
 
 func (c *vclock) Now() time.Time { return c.now }
-func (c *vclock) Ns() int64       { return c.now.UnixNano() }
+func (c *vclock) Ns() int64      { return c.now.UnixNano() }
 func (c *vclock) Tick(d time.Duration) {
 	c.now = c.now.Add(d)
 	if c.mr != nil {
@@ -112,13 +112,13 @@ func showErr(err error) string {
 }
 
 type storeOp struct {
-	Kind string              `json:"op"` // settok gettok setauth getauth clear remove sweep tick
-	Inst int                 `json:"inst,omitempty"`
-	ID   string              `json:"id,omitempty"`
-	Tok  *oidc.TokenResponse `json:"tok,omitempty"`
-	Auth *oidc.AuthorizationState `json:"auth,omitempty"`
-	D    time.Duration       `json:"d,omitempty"`
-	Faults []int             `json:"redis_command_faults,omitempty"` // per issued command: 0 ok, 1 fails unapplied, 2 applied but reply lost
+	Kind   string                   `json:"op"` // settok gettok setauth getauth clear remove sweep tick
+	Inst   int                      `json:"inst,omitempty"`
+	ID     string                   `json:"id,omitempty"`
+	Tok    *oidc.TokenResponse      `json:"tok,omitempty"`
+	Auth   *oidc.AuthorizationState `json:"auth,omitempty"`
+	D      time.Duration            `json:"d,omitempty"`
+	Faults []int                    `json:"redis_command_faults,omitempty"` // per issued command: 0 ok, 1 fails unapplied, 2 applied but reply lost
 }
 
 func (o storeOp) wire() string {
